@@ -42,6 +42,22 @@ PROPS["C08"] = {
     "design_ref": "DESIGN.md section 6 C08",
 }
 
+PROPS["C14"] = {
+    "modules": ["OxiaVerif.Props.C14"],
+    "facts": ["sessionShadowPutBeforeDelete", "sessionInitializeRearmsAllSessions", "sessionCallbackOnEveryRangeDeletedKey", "sessionExpiryRunsCleanup"],
+    "trusted_base": [KERNEL, EXTRACT, CORR,
+                     "M-Session abstracts the database to (records with owner, session records, shadow keys) and the leader to (timers, clock); values, versions, indexes and notifications are M-Db's (C12/C13/C15); the projection of the real database onto these components is done by the harness (key patterns __oxia/session/<id>[/<escaped key>])",
+                     "Go timers: a session's timer is a deadline = last (re)arming + timeout; wall-clock scripts are compared only when the harness kept up with the schedule"],
+    "assumptions": ["client ranges do not enclose the internal __oxia/ key space (known finding D-15 of C13)",
+                    "C14_end_session_exact covers close/expiry with nothing interleaved between the listing and the cleanup write; the interleaved schedule is the proved counterexample / known finding D-34",
+                    "leader changes are modelled on one node (standalone leader, new term); the replication of the session records is C06"],
+    "rule": "scripts of 6-36 operations on a real standalone leader controller: session creation (ids read back), puts plain / within live, dead and never-existing sessions over 13 keys (slashes, escapes, non-ASCII), deletes, range deletes, heartbeats (also back-to-back), close, leader change (NewTerm + BecomeLeader), full dumps of the database projected onto records/sessions/shadows plus the leader's live timers; 1/8 of the cases run on the wall clock (timeouts 3-7 units of 120 ms, odd; advances even) with expiry; 1/6 drive the yield point between the listing and the cleanup write of a closing session with a concurrent put (aimed at a key the session owns). Oracle: an independent bookkeeping of owners driven by the implementation's answers - dead-session writes refused, live ones accepted, records exactly the expected ones with the expected owners, shadows = ephemeral records, sessions gone exactly when closed or a full timeout after the last (re)arming, a timer for every session of the database, no hang.",
+    "level_text": "Machine-checked proof (Lean 4) on M-Session, for every sequence of puts (plain / in a session), deletes, range deletes, session creations, heartbeats, closes, clock advances and leader changes: the invariant 'shadow keys = (session, key) pairs of the ephemeral records, and every ephemeral record's session exists' holds in every reachable state; ending a session removes exactly the records it owns at that moment, the session and its shadows, and nothing else; ownership follows the last writer; a write naming a dead session is refused and changes nothing; the clock ends a session only after its deadline, and creation, heartbeat and leader change each arm a full timeout (a leader change for every session of the database, which are all kept). Proved counterexamples for the list/write window of session.delete (D-34) and for the swapped shadow order. Tied to the code by four regenerated facts and differential runs against a real leader controller.",
+    "level_note": "Trusted: Lean kernel; extractor rules (callback order, Initialize, range-delete callback loop, expiry path); harness projection; Go timers. Known finding D-34 (close is not atomic: foreign record deleted / orphaned ephemeral); fixed D-35 (heartbeat dead-lock).",
+    "technique": "Lean 4 proof (invariant over all operation sequences, exactness of session end) + regenerated facts + differential correspondence with yield-point schedules",
+    "design_ref": "DESIGN.md section 6 C14",
+}
+
 PROPS["C20"] = {
     "modules": ["OxiaVerif.Props.C20"],
     "facts": ["batcherRearmsTimerAfterSplit", "multiShardGetReturnsAfterError", "readBatchFreshResponsePerAttempt", "writeBatchHandlePositional"],
@@ -61,7 +77,7 @@ PROPS["C20"] = {
 NOT_APPLICABLE = {}
 
 # verif-guarded hook commits in /repo (add-only)
-HOOK_COMMITS = ["fd0e965", "d11cf72", "46739fb", "981ad0e", "643526d", "e05858a", "edb0adb"]
+HOOK_COMMITS = ["fd0e965", "d11cf72", "46739fb", "981ad0e", "643526d", "e05858a", "edb0adb", "7d5379a", "42d08ad"]
 
 PROPS["C09"] = {
     "modules": ["OxiaVerif.Props.C09", "OxiaVerif.Props.C09OnTree"],
